@@ -21,24 +21,29 @@ type Naming interface {
 	UseInitialisms(enable bool)
 }
 
-var all = []Naming{
-	new(GoLint), new(Apache), new(ThriftGo),
+var all = []func() Naming{
+	func() Naming { return new(GoLint) },
+	func() Naming { return new(Apache) },
+	func() Naming { return new(ThriftGo) },
 }
 
 // NamingStyles returns all supported naming styles.
 func NamingStyles() (ns []string) {
 	for _, n := range all {
-		ns = append(ns, n.Name())
+		ns = append(ns, n().Name())
 	}
 	return
 }
 
 // NewNamingStyle creates a Naming with the given name.
 // If the given name is supported, this function returns nil.
+//
+// Every call returns a new instance: a style carries settings (UseInitialisms)
+// which must not leak into later generations of the same process.
 func NewNamingStyle(name string) Naming {
 	for _, n := range all {
-		if n.Name() == name {
-			return n
+		if s := n(); s.Name() == name {
+			return s
 		}
 	}
 	return nil
